@@ -33,7 +33,7 @@ def REQUIRED(tier):
 
 def _required(tier):
     return ["files_cleaned", "hook:apply_mask", "hook:apply_method", "hook:apply_funcn", "mask_union_checks", "vectors:mad", "vectors:iqrm", "vector:all_equal", "vector:planted_outlier",
-            "file_samples_compared", "regime:multi_block", "roundtrip_checks", "freq:empty_list", "freq:outside_band", "freq:overlapping", "freq:limit_on_centre", "algebra_histories", "regime:subrange_cleaned", "regime:negative_float_samples", "regime:float_mask_value_outside_0_255", "custom_function_input_checks", "regime:cleaning_after_a_refused_call", "regime:integer_valued_custom_mask", "band:ascending", "second_cleaning_on_same_reader", "roundtrip:saved_over_an_existing_mask_file", "vector:mostly_tied", "algebra:duplicate_taken_mid_history", "vector:tiny_scale", "vector:fewer_than_12_channels", "vector:float64_high_level"]
+            "file_samples_compared", "regime:multi_block", "roundtrip_checks", "freq:empty_list", "freq:outside_band", "freq:overlapping", "freq:limit_on_centre", "algebra_histories", "regime:subrange_cleaned", "regime:negative_float_samples", "regime:float_mask_value_outside_0_255", "custom_function_input_checks", "regime:cleaning_after_a_refused_call", "regime:integer_valued_custom_mask", "band:ascending", "second_cleaning_on_same_reader", "roundtrip:saved_over_an_existing_mask_file", "vector:mostly_tied", "algebra:duplicate_taken_mid_history", "vector:tiny_scale", "vector:fewer_than_12_channels", "vector:float64_high_level", "algebra:threshold_changed_between_method_calls", "algebra:stats_mask_vs_reference", "freq:limit_on_decimal_centre", "freq:decimal_limit_judged"]
 
 
 def cases(tier, seed):
@@ -457,6 +457,30 @@ def _algebra(case, ctx):
         for k in ("chan_var", "chan_skew", "chan_kurt"):
             arrs[k][rng.integers(0, nch, size=2)] += 50.0
         m = RFIMask(float(rng.uniform(1.5, 5)), hdr, **arrs)
+        if j % 3 == 0:
+            # a band whose centres are decimal numbers (1400.1, 1399.1, ...) that single precision cannot hold, and a range given by the observer
+            # in those decimal numbers: the range is closed, so the channels whose centres are its limits belong to it
+            f1, fo = ((1400.1, -1.0), (1234.5678, -0.1), (1400.1, 1.0))[(j // 3) % 3]
+            dh = Header(filename="x.fil", data_type="filterbank", nchans=nch, foff=fo, fch1=f1, nbits=8, tsamp=1e-3, tstart=58000.0, nsamples=1000)
+            dm_ = RFIMask(3.0, dh, **arrs)
+            ka, kb = sorted(int(v) for v in rng.integers(0, nch, size=2))
+            cen = [f1 + k * fo for k in range(nch)]          # the decimal centres, in double precision
+            lims = sorted([cen[ka], cen[kb]])
+            dm_.apply_mask([(lims[0], lims[1])])
+            ctx.evaluated(); ctx.count("freq:limit_on_decimal_centre")
+            wantu = np.zeros(nch, dtype=bool); wantu[ka:kb + 1] = True
+            gotu = np.array(dm_.user_mask, dtype=bool)
+            # a limit channel whose single-precision centre in the header's own table is not the single-precision value of the decimal limit sits
+            # within one rounding of the limit: either outcome is accepted there (counted); channel 0 (the limit is fch1 itself) is never ambiguous
+            lib32 = np.asarray(dh.chan_freqs, dtype=np.float32)
+            for kk in {ka, kb}:
+                if np.float32(cen[kk]) != lib32[kk]:
+                    wantu[kk] = gotu[kk]
+                    ctx.count("freq:decimal_limit_within_one_rounding_of_the_centre")
+                else:
+                    ctx.count("freq:decimal_limit_judged")
+            if not np.array_equal(gotu, wantu):
+                ctx.violation("user-mask[limit_on_decimal_centre]", f"band fch1={f1} foff={fo}: range [{lims[0]!r}, {lims[1]!r}] whose limits are the centres of channels {ka} and {kb} masked {np.flatnonzero(gotu)[:3].tolist()}..{np.flatnonzero(gotu)[-3:].tolist()} instead of {ka}..{kb}", {"kind": "algebra", "n": 1, "seed": case["seed"], "only": j})
         ops = []
         _hook["events"].clear(); _hook["viol"].clear()
         ctx.evaluated(); ctx.count("algebra_histories")
@@ -477,9 +501,23 @@ def _algebra(case, ctx):
                 m.apply_mask([(float(a), float(b))]); ops.append(["apply_mask", float(a), float(b)])
             elif kind == 1:
                 meth = str(rng.choice(["mad", "iqrm"]))
+                if rng.random() < 0.6 and any(o[0] == "apply_method" for o in ops):
+                    # the threshold is retuned between two statistics passes on the same mask (an interactive session): the pass uses the value of the moment
+                    m.threshold = float(rng.uniform(1.2, 6)); ops.append(["threshold", m.threshold])
+                    ctx.count("algebra:threshold_changed_between_method_calls")
                 with np.errstate(all="ignore"):
                     m.apply_method(meth)
                 ops.append(["apply_method", meth])
+                want = np.zeros(nch, dtype=bool); amb = np.zeros(nch, dtype=bool)
+                for kk in ("chan_var", "chan_skew", "chan_kurt"):
+                    w_, a_ = ref_mask(arrs[kk].astype(np.float64), float(m.threshold), meth)
+                    want |= w_; amb |= a_
+                got_sm = np.array(m.stats_mask, dtype=bool)
+                bad = (got_sm != want) & ~amb
+                ctx.count("algebra:stats_mask_vs_reference")
+                if np.any(bad):
+                    ctx.violation(f"stats-mask-differs-from-definition:history:{meth}", f"after {ops[-1]} at threshold {m.threshold:.3f} the statistics mask differs from the reference at channels {np.flatnonzero(bad)[:6].tolist()} (history {ops})", one)
+                    break
             else:
                 idx = rng.integers(0, nch, size=2)
                 m.apply_funcn(lambda cm, idx=idx: np.isin(np.arange(cm.size), idx)); ops.append(["apply_funcn", idx.tolist()])
